@@ -297,7 +297,7 @@ theorem mergeTo_eff (cs : Cells) (src dst : TSet) :
       intro h
       simp only at h
       rcases h with h | h
-      · rw [hdnil] at h; exact absurd h.symm hsne
+      · exact absurd h.symm hsne
       · rw [hdnil] at h; exact absurd h hsne
     · split
       · refine ⟨rfl, rfl, 1, one _ _, fun _ => Nat.one_pos, ?_⟩
